@@ -39,4 +39,14 @@ def exitOk (checkMode diffMode : Bool) (o : Outcome) : Bool :=
 def checkFormatted (fmt : String → Option String) (source : String) : Option Bool :=
   (fmt source).map (fun f => source == f)
 
+/-- The whole command over the list of files it collected: the loop handles every file independently of
+the ones before it; the exit status fails if any file needs formatting (check/diff) or any errored. -/
+def runFiles (fmt : String → Option String) (checkMode diffMode : Bool) (files : List String) :
+    List Outcome × Bool :=
+  let outs := files.map (perFile fmt checkMode diffMode)
+  let needs := outs.any (·.needsFormatting)
+  let errs := outs.any (·.error)
+  let ok := if (checkMode || diffMode) && needs then false else !errs
+  (outs, ok)
+
 end Incan.FmtCli
